@@ -43,7 +43,9 @@ def tie_break(rows):
 def result_path(ck) -> Tuple[List[FunctionInfo], Set[str], FunctionInfo]:
     ctx = ck.ctx
     fn, call, mapname, worker_lambda, worker = parallel_map_site(ctx)
-    wreach = ctx.cg.reach([worker, worker_lambda])
+    # what the worker reaches on the way to its result: message handlers (diagnostics, plots) hand nothing back, so what only
+    # they reach (benchmark readers, ...) cannot change a record
+    wreach = ctx.cg.reach([worker, worker_lambda], barred_modules=("src.diagnostic", "src.plot", "src.compare", "sv."))
     fns = {f.qualname: f for f in run_reach(ctx)}
     for q in wreach:
         f = ctx.p.functions[q]
@@ -179,6 +181,11 @@ def _set_constructions(f: FunctionInfo, ctx=None):
         if isinstance(up, ast.Call) and isinstance(up.func, ast.Attribute) and up.func.value is node and \
                 up.func.attr in ("difference", "union", "intersection", "symmetric_difference", "issubset", "issuperset", "isdisjoint"):
             return up.func.attr.startswith("is") or order_free_use(up)
+        if isinstance(up, ast.Attribute) and up.value is node and up.attr in ("add", "update", "discard", "remove", "clear",
+                                                                              "__contains__", "difference_update", "intersection_update"):
+            call = parent.get(id(up))
+            if isinstance(call, ast.Call) and call.func is up and isinstance(parent.get(id(call)), ast.Expr):
+                return True              # filling / emptying the set as a statement: no order is read
         if isinstance(up, ast.keyword):
             up = parent.get(id(up))
         if ctx is not None and isinstance(up, ast.Call) and not f.is_lambda:
@@ -315,6 +322,13 @@ def persistent_state(ck, rule):
     for f in fns:
         if f.qualname not in wreach or f.is_lambda:
             continue
+        for pname, dflt, mnode in E.mutated_mutable_defaults(f):
+            if not E.default_is_used(ctx, f, pname):
+                continue
+            ck.violation(rule, f"{short(f)}:mutable-default:{pname}", where(f, mnode),
+                         f"parameter `{pname}` defaults to one shared mutable object ({ast.unparse(dflt)}) that worker code changes in "
+                         "place: per-process state that outlives a query - what a worker returns depends on which queries it saw before "
+                         "(so on --cpus and scheduling)", found=ast.unparse(mnode)[:120], required="a fresh object per call (default None)")
         for node in ast.walk(f.node):
             tgts = node.targets if isinstance(node, ast.Assign) else ([node.target] if isinstance(node, (ast.AugAssign, ast.NamedExpr)) else [])
             name = None
